@@ -167,6 +167,11 @@ theorem bparamOK_spec {P P' : Prog} {tags : List (Tag × Tag)} {b b' : Nat}
   unfold bparamOK at h
   simpa using List.all_eq_true.mp h (c, c') hc
 
+theorem mem_presentPairs {ρ : Ren} {P : Prog} {c c' : Tag} (h : renameTag ρ c = some c')
+    (hp : P.tagPresent c = true) : (c, c') ∈ presentPairs ρ P := by
+  unfold presentPairs
+  exact List.mem_filter.mpr ⟨mem_tagPairs h, by simpa using hp⟩
+
 theorem canonOK_spec {ρ : Ren} {P P' : Prog} (h : canonOK ρ P P' = true) {a a' b b' : Nat}
     (ha : ρ.tuple.get a = some a') (hb : ρ.tuple.get b = some b') :
     (P.canonOf a = P.canonOf b ↔ P'.canonOf a' = P'.canonOf b') := by
